@@ -18,15 +18,23 @@ open RpmVerif.FileMode
 /-- the type bits of a mode word -/
 def typeBits (w : Nat) : Nat := w &&& 0o170000
 
+/-- `Hash` agrees with `==` (the contract of `std::hash::Hash`): when the value and its re-conversion compare equal they
+hash alike -/
+def eqHashOk (o : Obs) : Bool := !o.rtEq || o.hashEq
+
 /-- a 16-bit word `w` converted to a file mode and observed:
 round trip (`raw_mode`, `u16::from`, `u32::from` give `w` back), type part ||| permission part = `w`,
-and each of the three classifications holds exactly when the type bits say so -/
+and each of the three classifications holds exactly when the type bits say so.
+The round trip read the other way: converting the word the value reports yields an EQUAL value again (`w ↦ m ↦ w ↦ m'`,
+`m' == m` — a consequence of `w ↦ m ↦ w`, of `From` being a function and of `==` being reflexive: a `==` / variant-field
+representation that breaks it contradicts one of the three), and the two hash alike. -/
 def specWord (w : Nat) (o : Obs) : Bool :=
   o.raw == w && o.back16 == w && o.back32 == w
   && (o.ftype ||| o.perm) == w
   && ((o.kind == .dir) == (typeBits w == 0o040000))
   && ((o.kind == .regular) == (typeBits w == 0o100000))
   && ((o.kind == .symlink) == (typeBits w == 0o120000))
+  && o.rtEq && o.hashEq
 
 /-- the 16-bit range of the integer conversion: what fits `u16` or `i16` -/
 def inRange16 (n : Int) : Bool := decide (-32768 ≤ n) && decide (n ≤ 65535)
@@ -36,7 +44,7 @@ def inRange16 (n : Int) : Bool := decide (-32768 ≤ n) && decide (n ≤ 65535)
 16-bit word with the same bit pattern (`n mod 2^16`) -/
 def specInt (n : Int) (o : Obs) : Bool :=
   if inRange16 n then specWord (n % 65536).toNat o
-  else o.kind == .invalid && o.err
+  else o.kind == .invalid && o.err && eqHashOk o
 
 /-- the inode(7) type bits of the three kinds a constructor can name -/
 def typeWord : Kind → Nat
@@ -45,9 +53,13 @@ def typeWord : Kind → Nat
 /-- a named constructor applied to `p`: the value is of the named kind, its permissions are `p` masked to 12 bits, and its
 mode word (`raw_mode`, `u16::from`, `u32::from`) is exactly the kind's type bits with those permissions — no bit of `p`
 above the twelve permission bits reaches the word (seed C18-8: masking moved from the constructors to `permissions()`
-left `regular(0o20644).raw_mode() = 0o120644`, a symbolic link's word) -/
+left `regular(0o20644).raw_mode() = 0o120644`, a symbolic link's word). "Mask permissions" is about the VALUE that is built,
+not only about what the getters answer: the public `permissions` field of the variant holds the masked number too (AUDIT2
+a19: a constructor that stores `p` unmasked while every getter masks passes all the clauses above, yet `regular(0o10644)`
+and `regular(0o644)` would then be two different values with the same mode word). -/
 def specCtor (k : Kind) (p : Nat) (o : Obs) : Bool :=
   o.kind == k && o.perm == (p &&& 0o7777) && decide (o.perm < 4096)
   && o.raw == (typeWord k ||| (p &&& 0o7777)) && o.back16 == o.raw && o.back32 == o.raw
+  && o.field == some (p &&& 0o7777) && eqHashOk o
 
 end RpmVerif.FileMode.Spec
